@@ -25,7 +25,74 @@ type WOp struct {
 // WHist is a weighted-trie history.
 type WHist struct {
 	Mode string `json:"mode,omitempty"` // generator mode (coverage bookkeeping only)
+	Uni  string `json:"uni,omitempty"`  // key universe: "" / "w" (WKeys), "head", "tail" (shape universes)
+	Sub  []int  `json:"sub,omitempty"`  // sorted selection of the universe's keys (ranks of the history index into it)
 	Ops  []WOp  `json:"ops"`
+}
+
+// shapeKeys is a shape-complete universe: 16 keys whose nibbles at four
+// consecutive positions (from) range over {0,1}, all other nibbles 0.  Over its
+// subsets every local trie shape occurs: branches directly below branches,
+// one- and two-nibble extensions in front of a branch, leaves with a rest of
+// zero, one, two (tail) or ~60 (head) nibbles.  Rank order = byte order.
+func shapeKeys(from int) [][]byte {
+	var keys [][]byte
+	for i := 0; i < 16; i++ {
+		nib := make([]byte, 64)
+		for b := 0; b < 4; b++ {
+			nib[from+b] = byte(i >> (3 - b) & 1)
+		}
+		k := make([]byte, 32)
+		for j := range k {
+			k[j] = nib[2*j]<<4 | nib[2*j+1]
+		}
+		keys = append(keys, k)
+	}
+	return keys
+}
+
+// UniverseKeys returns the keys a history's indexes refer to.
+func UniverseKeys(uni string, sub []int) [][]byte {
+	var all [][]byte
+	switch uni {
+	case "head":
+		all = shapeKeys(0)
+	case "tail":
+		all = shapeKeys(60)
+	default:
+		all = WKeys
+	}
+	if len(sub) == 0 {
+		return all
+	}
+	var keys [][]byte
+	for _, i := range sub {
+		keys = append(keys, all[i])
+	}
+	return keys
+}
+
+// PickUniverse draws a universe and a sorted selection of n of its keys.
+func PickUniverse(r *rand.Rand, n int) (string, []int) {
+	switch r.Intn(3) {
+	case 0:
+		return "w", nil
+	case 1:
+		return "head", pickSub(r, n)
+	}
+	return "tail", pickSub(r, n)
+}
+
+// SubFor is a deterministic selection of n keys of a shape universe.
+func SubFor(seed int64, n int) []int { return pickSub(rand.New(rand.NewSource(seed)), n) }
+
+func pickSub(r *rand.Rand, n int) []int {
+	if n > 16 {
+		n = 16
+	}
+	sub := append([]int(nil), r.Perm(16)[:n]...)
+	sort.Ints(sub)
+	return sub
 }
 
 // WKeys is the fixed key universe: 32-byte keys sharing prefixes of many lengths.
@@ -161,6 +228,7 @@ type wrun struct {
 	db   *memKV
 	t    *wmpt.WeightedMerkleTrie
 	kidx map[string]int
+	keys [][]byte
 	sig  bytes.Buffer
 	// last durably committed root
 	durRoot   []byte
@@ -274,14 +342,15 @@ func RunWMPT(w *tr.Writer, in *tr.Interner, st *WStats, tid int, h WHist) {
 	w.NextTrace()
 	st.Traces++
 	r := &wrun{w: w, in: in, st: st, tid: tid, kidx: map[string]int{}}
-	for i, k := range WKeys {
+	r.keys = UniverseKeys(h.Uni, h.Sub)
+	for i, k := range r.keys {
 		r.kidx[string(k)] = i
 	}
 	r.db = &memKV{m: map[string][]byte{}}
 	r.db.on = r.onWrite
 	r.t = wmpt.New(nil, r.db)
 	r.durRoot = bridge.EmptyState
-	r.emit(map[string]any{"op": "reset", "nkeys": len(WKeys), "empty": in.ID(bridge.EmptyState), "gmode": h.Mode})
+	r.emit(map[string]any{"op": "reset", "nkeys": len(r.keys), "empty": in.ID(bridge.EmptyState), "gmode": h.Mode, "uni": h.Uni})
 	st.Modes[h.Mode]++
 	var ckRoot []byte
 	var ckWeight uint64
@@ -296,7 +365,7 @@ func RunWMPT(w *tr.Writer, in *tr.Interner, st *WStats, tid int, h WHist) {
 			}
 			ev["w"] = wt
 			ev["res"] = Guard(func() string {
-				if err := r.t.Update(WKeys[op.K], val, wt); err != nil {
+				if err := r.t.Update(r.keys[op.K], val, wt); err != nil {
 					if err == wmpt.ErrNotFound {
 						return "notfound"
 					}
@@ -308,7 +377,7 @@ func RunWMPT(w *tr.Writer, in *tr.Interner, st *WStats, tid int, h WHist) {
 			r.emit(ev)
 		case "delete":
 			ev["res"] = Guard(func() string {
-				ch, err := r.t.Delete(WKeys[op.K])
+				ch, err := r.t.Delete(r.keys[op.K])
 				ev["change"] = ch
 				if err != nil {
 					if err == wmpt.ErrNotFound {
@@ -382,7 +451,7 @@ func RunWMPT(w *tr.Writer, in *tr.Interner, st *WStats, tid int, h WHist) {
 				idx := row[1].(int)
 				if idx >= 0 && !seen[idx] {
 					seen[idx] = true
-					entries = append(entries, bridge.WEntry{Key: WKeys[idx], Value: []byte(row[2].(string)), Weight: row[3].(uint64)})
+					entries = append(entries, bridge.WEntry{Key: r.keys[idx], Value: []byte(row[2].(string)), Weight: row[3].(uint64)})
 				}
 			}
 			wantRoot, wantTotal := bridge.WRoot(entries)
@@ -436,6 +505,7 @@ func RunWMPT(w *tr.Writer, in *tr.Interner, st *WStats, tid int, h WHist) {
 //	all     everything
 func GenWMPT(r *rand.Rand, mode string) WHist {
 	h := WHist{Mode: mode}
+	h.Uni, h.Sub = PickUniverse(r, len(WKeys))
 	shared := mode == "shared" || mode == "all"
 	dirtyReads := mode == "dirty" || mode == "all"
 	again := mode == "again" || mode == "all"
@@ -523,6 +593,7 @@ func GenWMPT(r *rand.Rand, mode string) WHist {
 // GenWMPTRollback draws a checkpoint / change batch / single commit / optional gc / rollback scenario (C13).
 func GenWMPTRollback(r *rand.Rand, mode string) WHist {
 	h := WHist{Mode: "rb-" + mode}
+	h.Uni, h.Sub = PickUniverse(r, 8)
 	nk := 2 + r.Intn(6)
 	uniq := 0
 	val := func(k int, fresh bool) string {
